@@ -1,22 +1,117 @@
-import EpModel.Model.Dec.Headers
-import EpModel.Spec.Decode
-/- C05 — first theorems (extended below as they are proved) -/
-namespace EpModel.Props.C05
-open EpModel EpModel.Dec
+import EpModel.Lemmas.DecLax
+/-
+  C05 — lax parsing extends strict parsing and flags truncation honestly.
 
-/-- every strict UDP slice lies inside the slice it was cut from. -/
-theorem udp_within (g : Mem) (o l : Nat) (w : Win) (h : udpFromSlice g o l = .ok w) :
-    o ≤ w.o ∧ w.o + w.l ≤ o + l := by
-  unfold udpFromSlice at h
+  Proved for every memory and input length:
+  * `strict_ok_lax_same_*`: whenever strict slicing (from Ethernet II, an ether type, IP) succeeds,
+    lax slicing of the same input returns exactly the same layers and payloads, no stop error and
+    nothing marked incomplete; the same for every IP boundary implementation, UDP, MACsec and the
+    extension walkers (where the strict function *is* the lax one that turns a stop error into Err).
+  * `lax_err_iff_first_header_*`: a lax entry point returns Err exactly when the very first header
+    is undecodable.
+  * `incomplete_iff_*`: a payload is marked incomplete exactly when its length field promised more
+    than the slice holds; then the data up to the end of the slice is handed out and the slice is
+    the reported length source.
+  The comparison of the lax layer prefix with the wire formats (Spec.decodeLax) and the location of
+  stop errors is exercised by the oracle of the check; `Tolerated` (what lax mode absorbs) is the
+  explicit list in the python module.
+-/
+namespace EpModel.Props.C05
+open EpModel EpModel.Dec EpModel.Lemmas.Dec
+
+theorem strict_ok_lax_same_ethernet (g : Mem) (n : Nat) (p : Packet) (h : slicedFromEthernet g n = .ok p) :
+    laxSlicedFromEthernet g n = .ok p ∧ p.stop = none ∧ NoInc p := sliced_ethernet_strict_lax g n p h
+
+theorem strict_ok_lax_same_ether_type (g : Mem) (et n : Nat) (p : Packet)
+    (h : slicedFromEtherType g et n = .ok p) :
+    laxSlicedFromEtherType g et n = p ∧ p.stop = none ∧ NoInc p := sliced_ether_type_strict_lax g et n p h
+
+theorem strict_ok_lax_same_ip (g : Mem) (n : Nat) (p : Packet) (h : slicedFromIp g n = .ok p) :
+    laxSlicedFromIp g n = .ok p ∧ p.stop = none ∧ NoInc p := sliced_ip_strict_lax g n p h
+
+/-- the IP boundary implementations -/
+theorem strict_ok_lax_same_ip_boundaries (g : Mem) (o l : Nat) (r : IpR) :
+    (ipSliceFromSlice g o l = .ok r → laxIpSliceFromSlice g o l = .ok (r, none) ∧ r.pl.inc = false) ∧
+    (ipv4SliceFromSlice g o l = .ok r →
+      laxIpv4SliceFromSlice g o l = .ok (r, none) ∧ laxIpSliceFromSlice g o l = .ok (r, none) ∧ r.pl.inc = false) ∧
+    (ipv6SliceFromSlice g o l = .ok r →
+      laxIpv6SliceFromSlice g o l = .ok (r, none) ∧ laxIpSliceFromSlice g o l = .ok (r, none) ∧ r.pl.inc = false) ∧
+    (ipHeadersFromSlice g o l = .ok r → ipHeadersFromSliceLax g o l = .ok (r, none) ∧ r.pl.inc = false) :=
+  ⟨ipSlice_strict_lax g o l r,
+   fun h => let k := ipv4Slice_strict_lax g o l r h; ⟨k.2.1, k.1, k.2.2⟩,
+   fun h => let k := ipv6Slice_strict_lax g o l r h; ⟨k.2.1, k.1, k.2.2⟩,
+   ipHeaders_strict_lax g o l r⟩
+
+theorem strict_ok_lax_same_udp (g : Mem) (o l : Nat) (w : Win) (h : udpFromSlice g o l = .ok w) :
+    udpFromSliceLax g o l = .ok w := udp_strict_ok_lax_same g o l w h
+
+theorem strict_ok_lax_same_macsec (g : Mem) (o l : Nat) (x : ExtR) (h : macsecFromSlice g o l = .ok x) :
+    laxMacsecFromSlice g o l = .ok x := macsec_strict_ok_lax_same g o l x h
+
+/-- extension walkers: the strict result is the lax result, and the lax one has no stop error -/
+theorem strict_ok_lax_same_exts (g : Mem) (sm : Bool) (nh o l : Nat) (r : ExtsOut)
+    (h : extsWalkStrict g sm nh o l = .ok r) : r = extsWalk g sm nh o l ∧ (extsWalk g sm nh o l).stop = none :=
+  extsWalkStrict_ok g sm nh o l r h
+
+/-! ### Err only when the first header is undecodable -/
+
+theorem lax_err_iff_first_header_ethernet (g : Mem) (n : Nat) :
+    (∃ e, laxSlicedFromEthernet g n = .error e) ↔ n < 14 := by
+  unfold laxSlicedFromEthernet eth2FromSlice
+  split <;> simp_all
+
+theorem lax_err_iff_first_header_ip (g : Mem) (n : Nat) :
+    (∃ e, laxSlicedFromIp g n = .error e) ↔ ∃ e, ipDispatchHeader g false 0 n = .error e := by
+  unfold laxSlicedFromIp laxIpSliceFromSlice
+  split <;> simp_all
+
+/-- (`LaxSlicedPacket::from_ether_type` returns no `Result` at all: it is total by its type.) -/
+theorem lax_ether_type_total (g : Mem) (et n : Nat) : ∃ p, laxSlicedFromEtherType g et n = p := ⟨_, rfl⟩
+
+/-! ### incomplete ⇔ the length field promised more than the slice holds -/
+
+theorem incomplete_iff_ipv4 (o l hl tl : Nat) :
+    ((ipv4BoundLax o l hl tl).2.2 = true ↔ (hl ≤ tl ∧ l < tl)) ∧
+      ((ipv4BoundLax o l hl tl).2.2 = true →
+        (ipv4BoundLax o l hl tl).1 = ⟨o + hl, l - hl⟩ ∧ (ipv4BoundLax o l hl tl).2.1 = .slice) := by
+  unfold ipv4BoundLax
+  split
+  · simp; omega
+  · split <;> simp <;> omega
+
+theorem incomplete_iff_ipv6 (o l pl : Nat) :
+    ((ipv6BoundLax o l pl).2.2 = true ↔ (¬ (pl = 0 ∧ l > 40) ∧ l < 40 + pl)) ∧
+      ((ipv6BoundLax o l pl).2.2 = true →
+        (ipv6BoundLax o l pl).1 = ⟨o + 40, l - 40⟩ ∧ (ipv6BoundLax o l pl).2.1 = .slice) := by
+  unfold ipv6BoundLax
+  split
+  · simp_all
+  · split <;> simp_all
+
+theorem incomplete_iff_macsec (g : Mem) (o l : Nat) (hdr pl : Win) (src : LenSource) (inc : Bool)
+    (h : laxMacsecFromSlice g o l = .ok (.macsec hdr pl src inc)) :
+    (inc = true ↔ ∃ n, macsecExpectedPayloadLen g o = some n ∧ l < hdr.l + n) ∧
+      (inc = true → pl = ⟨o + hdr.l, l - hdr.l⟩ ∧ src = .slice) := by
+  unfold laxMacsecFromSlice at h
   split at h
   · contradiction
-  · simp only at h
+  · rename_i hl hh
     split at h
-    · contradiction
-    · split at h
-      · cases h; simp
-      · split at h
-        · contradiction
-        · cases h; simp; omega
+    · rename_i n hn
+      simp only at h
+      split at h
+      · cases h; simp_all
+      · cases h; simp_all
+    · cases h; simp_all
+
+/-- UDP lax: the slice is cut to the UDP length exactly when that length is admissible, otherwise
+    the rest of the data is handed out -/
+theorem udp_lax_rule (g : Mem) (o l : Nat) (h8 : 8 ≤ l) :
+    udpFromSliceLax g o l =
+      .ok (if l < g16 g (o + 4) ∨ g16 g (o + 4) < 8 then ⟨o, l⟩ else ⟨o, g16 g (o + 4)⟩) := by
+  unfold udpFromSliceLax
+  have : ¬ l < 8 := by omega
+  simp only [this, if_false]
+  split <;> rfl
 
 end EpModel.Props.C05
